@@ -75,7 +75,7 @@ def run(chk, which="C19"):
     rnd = core.rng("c19", tier)
     names = sorted(units)
     d = core.subdir("c19")
-    per_tu = 7 if tier == "quick" else 20
+    per_tu = 10 if tier == "quick" else 20
     plans = []
     for rep in REPS:
         chosen = rnd.sample(names, per_tu)
